@@ -219,6 +219,16 @@ def _history(ctx, fam, arts, rng, hid):
       if ev['ret'] and not newpos:
         ctx.violation('returned-true-without-positive-entry@%s' % name, '',
                       data)
+      flipped = any(
+          observe.entries_dict(after_all[j]).get(name, (False, 0))[0] and not
+          observe.entries_dict(before_all[j]).get(name, (False, 0))[0]
+          for j in idx)
+      if flipped:
+        ctx.count('single_check_calls_with_new_positive')
+      if flipped and ev['ret'] is not True:
+        ctx.violation('returned-false-with-new-positive-entry@%s' % name,
+                      '%s returned %r although it set a positive entry in this '
+                      'call' % (name, ev['ret']), data)
   ctx.count('histories')
   if pre:
     ctx.count('preannotated_histories')
@@ -353,5 +363,6 @@ def finalize(agg, tier):
   c = agg['counters']
   need = ['histories', 'preannotated_histories', 'entry_point_calls',
           'issuer_verdicts_compared', 'issuer_verdicts_weak',
+          'single_check_calls_with_new_positive',
           'later_call_with_close_issuer']
   return [], ['reach counter %s is zero' % k for k in need if not c.get(k)]
